@@ -4,7 +4,9 @@ import (
 	"fmt"
 	"math/rand/v2"
 	"os"
+	"os/exec"
 	"sort"
+	"strings"
 
 	"github.com/wizenheimer/comet"
 
@@ -205,6 +207,41 @@ func runC09(r *ev.Run) {
 		checkFound(s, "after-reopen")
 		checkFound(s, "after-reopen-second-search")
 		s.Close()
+		// "in this or any later process": reopen in a NEW process (thorough tier; flat/none templates, which the helper knows)
+		if helper := os.Getenv("VERIF_HELPER"); helper != "" && (r.Thorough() || ci%10 == 0) && (p.VecKind == "flat" || p.VecKind == "") && !dead {
+			b2s := func(b bool) string {
+				if b {
+					return "1"
+				}
+				return "0"
+			}
+			out, err := exec.Command(helper, "ids", dir, b2s(p.VecKind == "flat"), b2s(p.Text), b2s(p.Meta), fmt.Sprint(p.Dim), string(p.Metric)).Output()
+			if err != nil {
+				r.Inconclusive("helper process failed to run")
+			} else {
+				for _, line := range strings.Split(strings.TrimSpace(string(out)), "\n") {
+					f := strings.Fields(line)
+					if len(f) >= 1 && (f[0] == "OPENFAIL" || f[0] == "SEARCHFAIL") {
+						rep("store.new-process-reopen-fails", "a new process could not open/search the directory: "+line)
+					}
+					if len(f) >= 2 && f[0] == "IDS" {
+						got := map[uint32]bool{}
+						for _, x := range f[2:] {
+							var id uint32
+							fmt.Sscan(x, &id)
+							got[id] = true
+						}
+						for id := range durable {
+							if !got[id] {
+								rep("store.durable-document-lost.in-new-process", fmt.Sprintf("a new process does not find durable document %d through the %s query", id, f[1]))
+								break
+							}
+						}
+					}
+				}
+				r.Count("probes:reopen-in-new-process", 1)
+			}
+		}
 		segs := map[uint64]bool{}
 		for name := range hashes {
 			if id, ok := segmentIDOf(name); ok {
